@@ -18,6 +18,7 @@ import (
 	"github.com/tobgu/qframe/config/csv"
 	"github.com/tobgu/qframe/config/newqf"
 	qsql "github.com/tobgu/qframe/config/sql"
+	"github.com/tobgu/qframe/verifhook"
 	"pgregory.net/rapid"
 
 	"verifsim/sim/core"
@@ -179,7 +180,12 @@ func enumerateReader(t *rapid.T, r *core.SplitMix, surface string, doc []byte, i
 				plan := randomPlan(r, n)
 				plan.Fault = &simio.ReadFault{At: pos, WithData: withData, Kind: k.name, Err: k.err, Once: once}
 				rd := &simio.SimReader{Doc: doc, Plan: plan, MaxReads: 16*n + 1024}
+				if surface == "ReadCSV" {
+					// faults must also meet the refill/realloc paths of the scan buffer
+					verifhook.SetCSVBufCap([]int{0, 0, 1, 2, 3, 8, 16}[r.Intn(7)])
+				}
 				fr, pan := read(rd)
+				verifhook.SetCSVBufCap(0)
 				core.Steps(rd.Reads)
 				note(surface, pos, shape, k.name, rd.Fired, inputSig)
 				tr := caseTrace{Surface: surface, Input: input, Doc: fmt.Sprintf("%q", doc), Position: pos, Of: n + 1, Shape: shape, Kind: k.name, Plan: plan, Fired: rd.Fired, Expected: base}
